@@ -374,7 +374,7 @@ def from_Composition(composition, width=80):
     barindex = 0
     bars = width // w
     lastlen = 0
-    maxlen = max([len(x) for x in composition.tracks])
+    maxlen = max([len(x) for x in composition.tracks] or [0])
 
     while barindex < maxlen:
         notfirst = False
